@@ -77,7 +77,6 @@ func mutate(what, path string) bool {
 	if frozen {
 		return false
 	}
-	rt.Yield()
 	if crashAfter == 0 {
 		frozen = true
 		crashAfter = -1
@@ -87,7 +86,7 @@ func mutate(what, path string) bool {
 		crashAfter--
 	}
 	Mutations++
-	mutationLog = append(mutationLog, what+" "+path)
+	rt.Debug(what + " " + path)
 	return true
 }
 
@@ -220,6 +219,7 @@ func OsReadlink(name string) (string, error) {
 // ---- directories ------------------------------------------------------------------
 
 func OsMkdir(name string, perm os.FileMode) error {
+	rt.Yield() // every file-system call is one atomic step; the scheduling point is before it
 	parent, base, n, errno := resolve(name, true, 0)
 	if n != nil {
 		return pathErr("mkdir", name, syscall.EEXIST)
@@ -258,6 +258,10 @@ func OsMkdirAll(path string, perm os.FileMode) error {
 			continue
 		}
 		if err := OsMkdir(cur, perm); err != nil {
+			// like os.MkdirAll: somebody else may have created it meanwhile
+			if _, _, n2, _ := resolve(cur, true, 0); n2 != nil && n2.kind == kDir {
+				continue
+			}
 			return err
 		}
 	}
@@ -265,6 +269,7 @@ func OsMkdirAll(path string, perm os.FileMode) error {
 }
 
 func OsSymlink(oldname, newname string) error {
+	rt.Yield() // every file-system call is one atomic step; the scheduling point is before it
 	parent, base, _, errno := resolve(newname, false, 0)
 	if parent == nil {
 		if errno == 0 {
@@ -283,6 +288,7 @@ func OsSymlink(oldname, newname string) error {
 }
 
 func OsRemove(name string) error {
+	rt.Yield() // every file-system call is one atomic step; the scheduling point is before it
 	parent, base, n, errno := resolve(name, false, 0)
 	if n == nil {
 		return pathErr("remove", name, errno)
@@ -301,6 +307,7 @@ func OsRemove(name string) error {
 }
 
 func OsRemoveAll(name string) error {
+	rt.Yield() // every file-system call is one atomic step; the scheduling point is before it
 	parent, base, n, errno := resolve(name, false, 0)
 	if n == nil {
 		if errno == syscall.ENOENT {
@@ -323,6 +330,7 @@ func OsRemoveAll(name string) error {
 }
 
 func OsRename(oldpath, newpath string) error {
+	rt.Yield() // every file-system call is one atomic step; the scheduling point is before it
 	op, ob, on, errno := resolve(oldpath, false, 0)
 	if on == nil || op == nil {
 		if errno == 0 {
@@ -371,6 +379,7 @@ func OsRename(oldpath, newpath string) error {
 }
 
 func OsTruncate(name string, size int64) error {
+	rt.Yield() // every file-system call is one atomic step; the scheduling point is before it
 	_, _, n, errno := resolve(name, true, 0)
 	if n == nil {
 		return pathErr("truncate", name, errno)
@@ -399,6 +408,7 @@ func (n *node) truncate(size int64) {
 }
 
 func OsChmod(name string, mode os.FileMode) error {
+	rt.Yield() // every file-system call is one atomic step; the scheduling point is before it
 	_, _, n, errno := resolve(name, true, 0)
 	if n == nil {
 		return pathErr("chmod", name, errno)
@@ -684,6 +694,7 @@ func FileReadAt(f *os.File, b []byte, off int64) (int, error) {
 }
 
 func FileWrite(f *os.File, b []byte) (int, error) {
+	rt.Yield() // every file-system call is one atomic step; the scheduling point is before it
 	h, err := fileErr("write", f)
 	if err != nil {
 		return 0, err
@@ -715,6 +726,7 @@ func FileWrite(f *os.File, b []byte) (int, error) {
 func FileWriteString(f *os.File, s string) (int, error) { return FileWrite(f, []byte(s)) }
 
 func FileWriteAt(f *os.File, b []byte, off int64) (int, error) {
+	rt.Yield() // every file-system call is one atomic step; the scheduling point is before it
 	h, err := fileErr("write", f)
 	if err != nil {
 		return 0, err
@@ -768,6 +780,7 @@ func FileStat(f *os.File) (os.FileInfo, error) {
 }
 
 func FileTruncate(f *os.File, size int64) error {
+	rt.Yield() // every file-system call is one atomic step; the scheduling point is before it
 	h, err := fileErr("truncate", f)
 	if err != nil {
 		return err
@@ -944,4 +957,4 @@ func InitOS() {
 func ArmCrashAfter(n int) { crashAfter = n }
 func Unfreeze()           { frozen = false; crashAfter = -1 }
 func MutationCount() int  { return Mutations }
-func MutationLog() []string { return mutationLog }
+func MutationLog() []string { return nil }
